@@ -150,18 +150,12 @@ Section Exp.
   Qed.
 End Exp.
 
-(* ---------------- the refuted clause: witness ---------------- *)
-(* n = 8, unit voxels, sigma = 17/20 (fwhm 2.0 gives sigma 0.8493...): the cut
-   reaches 4 voxels, the crop is the whole axis, c_k = 3, k // 2 = 4. *)
-Lemma witness_geom : geom_diag 8 1 (17 # 20) = [8; 3; 18; 4; 12; -1].
-Proof. vm_compute. reflexivity. Qed.
-
 (* ---------------- the whole chain along a diagonal axis ---------------- *)
 Lemma diag_geom_ok n step sigma :
   1 <= n -> ~ (sigma == 0)%Q ->
   let mM := bounds_diag n step sigma in
   0 <= kcentre n mM < klen mM /\ 1 <= klen mM <= n /\
-  offset n mM = if Z.even n && in_cut (half_normsq step sigma (centre n + 1)) then -1 else 0.
+  half_gap n mM = if Z.even n && in_cut (half_normsq step sigma (centre n + 1)) then -1 else 0.
 Proof.
   intros Hn Hs mM.
   pose proof (cut_sym_mono step sigma Hs) as SM.
@@ -173,7 +167,7 @@ Proof.
   - unfold kcentre, klen, mM, bounds_diag. lia.
   - unfold klen, mM, bounds_diag. lia.
   - unfold mM, bounds_diag, proj_diag.
-    apply (sym_offset n (fun d => in_cut (half_normsq step sigma d)) Hn SM).
+    apply (sym_half_gap n (fun d => in_cut (half_normsq step sigma d)) Hn SM).
 Qed.
 
 Section Chain.
@@ -187,20 +181,34 @@ Section Chain.
     let mM := bounds_diag n step sigma in
     smooth1 n (klen mM) (delta p0) (kern_of (gprofile E step sigma) (kcentre n mM)) 1 0 p.
 
-  Lemma diag_impulse_peak n step sigma p0 p :
+  Lemma diag_impulse_centred n step sigma p0 p :
     1 <= n -> ~ (step == 0)%Q -> ~ (sigma == 0)%Q ->
-    0 <= p0 < n -> 0 <= p < n ->
-    let off := if Z.even n && in_cut (half_normsq step sigma (centre n + 1)) then -1 else 0 in
-    0 <= p0 + off < n -> p <> p0 + off ->
-    (response n step sigma p0 p < response n step sigma p0 (p0 + off))%Q.
+    0 <= p0 < n -> 0 <= p < n -> p <> p0 ->
+    (response n step sigma p0 p < response n step sigma p0 p0)%Q.
   Proof.
-    intros Hn Hst Hs Hp0 Hp off Hq Hne.
+    intros Hn Hst Hs Hp0 Hp Hne.
     destruct (diag_geom_ok n step sigma Hn Hs) as (G1 & G2 & G3).
-    unfold response. unfold offset, win_start in G3.
-    assert (EQ : off = kcentre n (bounds_diag n step sigma) - klen (bounds_diag n step sigma) / 2) by (unfold off; lia).
-    rewrite EQ in *.
-    apply (impulse_peak (gprofile E step sigma)
+    unfold response.
+    apply (impulse_centred (gprofile E step sigma)
              (gprofile_nonneg E E_compat E_pos step sigma Hs)
              (gprofile_peak E E_compat E_pos E_decr step sigma Hst Hs)); assumption.
   Qed.
+
+  (* _kcenter of the code's kernel is the centre voxel's index in the crop *)
+  Lemma diag_kcenter n step sigma :
+    1 <= n -> ~ (step == 0)%Q -> ~ (sigma == 0)%Q ->
+    let mM := bounds_diag n step sigma in
+    kcenter (klen mM) (kern_of (gprofile E step sigma) (kcentre n mM)) = kcentre n mM.
+  Proof.
+    intros Hn Hst Hs mM.
+    destruct (diag_geom_ok n step sigma Hn Hs) as (G1 & G2 & G3).
+    apply (kcenter_kern_of (gprofile E step sigma)
+             (gprofile_nonneg E E_compat E_pos step sigma Hs)
+             (gprofile_peak E E_compat E_pos E_decr step sigma Hst Hs)). exact G1.
+  Qed.
 End Chain.
+
+(* the former witness of the even-grid shift: n = 8, sigma 17/20: c_k = 3, k // 2 = 4;
+   the window now starts at 3 *)
+Lemma witness_geom : geom_diag 8 1 (17 # 20) = [8; 3; 18; 3; 11; 0].
+Proof. vm_compute. reflexivity. Qed.
